@@ -357,7 +357,7 @@ fn mode_blocking(cx: &mut Ctx) {
     let d = cx.d.clone();
     let msgs = pick_messages(&d, cx.thorough);
     let seqs = sequences(&msgs, if cx.thorough { 3 } else { 2 });
-    let full_len = if cx.thorough { 16 } else { 11 };
+    let full_len = if cx.thorough { 16 } else { 12 };
     let dev = if cx.thorough { 3 } else { 2 };
     let max_execs = if cx.thorough { 2_000_000 } else { 60_000 };
     for cap in caps(msgs.s, d.align(), cx.thorough) {
